@@ -1,11 +1,18 @@
 import NetaddrVerif.Model.Proto
 import NetaddrVerif.Model.Subnet
+import NetaddrVerif.Model.SubnetTrace
 /-! Driver ops of property C11 (Model/Subnet.lean).
     `subnet N q count|- limit` → `[first limit blocks] more?` or `!err`
     `supernet N q` → `[blocks]` or `!err`
     `next N k` / `prev N k` → `result~receiver` (`!err~receiver`)
     `iadd N k` / `isub N k` → object after the statement, `!err~object` when it raised
-    `hosts N limit` → `[first limit values] more?` -/
+    `hosts N limit` → `[first limit values] more?`
+    `subtake N q count|- limit` → `list(islice(N.subnet(q, count), limit))` with the EXACT limit
+      (0 included: nothing of the generator body runs) → `[blocks]` or `!err`
+    `iaddT N k` / `isubT N k` / `nextT N k` / `prevT N k` → the statement-level runs of
+      Model/SubnetTrace.lean: `returned object|!err ~ receiver afterwards ~ observable events`
+      (stores per object: `r:wv:<int>` into the receiver, `c:wv:…,c:wp:…,c:wm` the constructor of
+      the private copy, `c:wv:<int>` the step's store into the copy) -/
 namespace NV.Driver.C11
 open NV NV.Proto NV.Subnet
 
@@ -18,6 +25,10 @@ def showR (r : R Net) : String :=
 
 def parseOptInt (s : String) : Option (Option Int) :=
   if s = "-" then some none else (parseInt s).map some
+
+def showTrace (st : Trace.St) : String :=
+  showR st.result.1 ++ "~" ++ showNet st.result.2 ++ "~" ++
+    ",".intercalate (st.log.filterMap Trace.Ev.observable)
 
 def handle (op : String) (args : List String) : Option String :=
   match op, args with
@@ -53,6 +64,23 @@ def handle (op : String) (args : List String) : Option String :=
     let n ← parseNet n; let limit ← limit.toNat?
     let l := hostsTake n (limit + 1)
     pure (showList ((l.take limit).map toString) ++ " " ++ showBool (l.length > limit))
+  | "subtake", [n, q, count, limit] => do
+    let n ← parseNet n; let q ← parseInt q; let count ← parseOptInt count; let limit ← limit.toNat?
+    match subnetTake n q count limit with
+    | .ok l => pure (showNets l)
+    | .error e => pure (showErr e)
+  | "iaddT", [n, k] => do
+    let n ← parseNet n; let k ← parseInt k
+    pure (showTrace (Trace.iaddRun n k))
+  | "isubT", [n, k] => do
+    let n ← parseNet n; let k ← parseInt k
+    pure (showTrace (Trace.isubRun n k))
+  | "nextT", [n, k] => do
+    let n ← parseNet n; let k ← parseInt k
+    pure (showTrace (Trace.nextRun n k))
+  | "prevT", [n, k] => do
+    let n ← parseNet n; let k ← parseInt k
+    pure (showTrace (Trace.prevRun n k))
   | _, _ => none
 
 end NV.Driver.C11
